@@ -718,6 +718,10 @@ func (s *Store[K, V]) sinkWrite(item WriteBufItem[K, V]) {
 			}
 		}
 
+		// the value changed, so the copy in the secondary cache (if any) is no longer
+		// identical: the entry must be written back when it is evicted
+		entry.flag.SetFromNVM(false)
+
 		// update entry policy weight
 		entry.policyWeight += item.costChange
 
